@@ -409,7 +409,7 @@ def check(pid, P, tier, seed, work, replay, t0):
         for name, ops in zip(corpus_names, corpus_ops):
             issues, tr, md = eval_case(h, stream, ops, work, "corpus")
             total_lines += len(tr)
-            kf = next((k for k in known_open if k.get("corpus") == "%s/%s" % (stream, name)), None)
+            kf = next((k for k in known_open if "%s/%s" % (stream, name) in (k.get("corpora") or [k.get("corpus")])), None)
             spec_bad = [x for x in issues if "spec" in x[1]]
             div = [x for x in issues if x[1].startswith("impl!=model") or x[1].startswith("driver")]
             if kf is not None:
